@@ -13,7 +13,7 @@ LABEL = re.compile(r'(\w+)@(\d+)([a-z]+)')
 def run(res):
     from core.util import no_color
     rnd = random.Random(res.seed * 3331 + 14)
-    n = 60 if res.tier == 'quick' else 2500
+    n = 120 if res.tier == 'quick' else 4000
     checked = 0
     for _ in range(n):
         case = sessioncheck.build_case(rnd, n_events=rnd.choice([30, 60]), chatter=0.02, n_conns=rnd.choice([1, 2, 3]))
@@ -21,6 +21,19 @@ def run(res):
         r = implsession.LogRunner(cfg, [(e[0], e[1]) if len(e) > 1 else (e[0],) for e in case['impl_events']], lambda e: e[1])
         outs, final = r.run()
         conns = list(r.cm.connection_list)
+        # distinct objects of a connection never share a displayed label (every object of the table, not only the sampled ones)
+        for conn in conns:
+            seen = {}
+            for l in conn.db.values():
+                for o in l:
+                    lab = no_color(o.id_str())
+                    if lab in seen and seen[lab] is not o:
+                        res.disagree('two objects of one connection share a displayed label', case['impl_events'], 'distinct', [conn.name(), lab],
+                                     sig={'category': 'label-shared'}, theorem='C14_label_inj')
+                    seen[lab] = o
+        names = [c.name() for c in conns]
+        if len(set(names)) != len(names):
+            res.disagree('two connections share a name', case['impl_events'], 'distinct', names, sig={'category': 'label-conn-unique'}, theorem='C14_conn_names_distinct')
         # labels as displayed
         labels = set()
         for ev in outs:
